@@ -480,19 +480,31 @@ Qed.
 
 (* ------------------------------------------------------------------ *)
 (* (c) count                                                           *)
-Theorem count_fast_path_spec : forall col rows, count_fast_path false col rows = count_spec col rows.
+Lemma count_rows_spec : forall col rows, count_rows col rows = count_spec col rows.
 Proof.
-  intros [c|] rows; unfold count_fast_path, count_spec, count_field; [|reflexivity].
+  intros [c|] rows; unfold count_rows, count_spec; [|reflexivity].
   f_equal. f_equal. apply filter_ext. intros r.
   change (negb (is_none (nth c r None)) = match nth c r None with Some _ => true | None => false end).
   destruct (nth c r None); reflexivity.
 Qed.
 
-(* full statement (fails): forall keyless col rows, count_fast_path keyless col rows = count_spec col rows.
-   On a keyless table COUNT(col) tests the wrong field of the value tuple. *)
-Theorem count_fast_path_keyless_refuted :
-  exists col rows, count_fast_path true col rows <> count_spec col rows.
-Proof. exists (Some O), [[None; Some 1]]. vm_compute. discriminate. Qed.
+Theorem count_fast_path_spec : forall col rows, count_fast_path false col rows = Some (count_spec col rows).
+Proof. intros col rows. unfold count_fast_path. f_equal. apply (count_rows_spec col rows). Qed.
+
+(* COUNT on keyed and keyless tables alike (the keyless table's rows listed with their multiplicities) *)
+Theorem count_answer_spec : forall keyless col rows, count_answer keyless col rows = count_spec col rows.
+Proof.
+  intros [|] col rows; unfold count_answer, count_fast_path; [apply count_rows_spec|].
+  apply (count_rows_spec col rows).
+Qed.
+
+(* regression (formerly count_fast_path_keyless_refuted, repaired by d707d55): a keyless table with a duplicated
+   row whose first column is NULL; COUNT(first column) counts neither the NULLs nor one per stored entry *)
+Example count_keyless_regression :
+  count_fast_path true (Some O) [[None; Some 1]; [None; Some 1]; [Some 0; Some 0]; [Some 0; Some 0]] = None
+  /\ count_answer true (Some O) [[None; Some 1]; [None; Some 1]; [Some 0; Some 0]; [Some 0; Some 0]] = 2
+  /\ count_answer true None [[None; Some 1]; [None; Some 1]; [Some 0; Some 0]; [Some 0; Some 0]] = 4.
+Proof. repeat split. Qed.
 
 (* ------------------------------------------------------------------ *)
 (* (b) joins                                                           *)
